@@ -265,6 +265,18 @@ Theorem c18_width_order_independent_growth_only : forall T avail total1 total2, 
   (let? _ := choose_type T avail total1 in choose_type T avail total2).
 Proof. exact choose_type_growth_only. Qed.
 
+(* the GlyphPatches container is decoded from the real patch BYTES with the patch's OWN glyph-id width
+   flag; decoding inverts the encoder for both widths (u16 and u24 glyph ids) — reading a patch with another
+   patch's width mis-parses it: Examples.v c18_wrong_id_width_misparses *)
+Theorem c18_glyph_patches_decode_encode : forall wide gids tables offs blob,
+  Forall (fun g => 0 <= g < 256 ^ Z.of_nat (idw wide)) gids ->
+  Forall (fun t => 0 <= t < 256 ^ 4) tables -> Forall (fun o => 0 <= o < 256 ^ 4) offs ->
+  len gids < 256 ^ 4 -> len tables < 256 ->
+  length offs = (length gids * length tables + 1)%nat ->
+  gp_read (gp_encode wide gids tables offs blob) wide =
+  inr {| gp_gids := gids; gp_tables := tables; gp_offs := offs; gp_raw := gp_encode wide gids tables offs blob |}.
+Proof. exact gp_read_encode. Qed.
+
 Print Assumptions c18_table_keyed_exact.
 Print Assumptions c18_incompatible_before_any_decode.
 Print Assumptions c18_glyph_keyed_exact.
@@ -294,3 +306,4 @@ Print Assumptions c18_loca_width_matches_head.
 Print Assumptions c18_cff_is_the_builder_output.
 Print Assumptions c18_glyph_keyed_exact_partial_check.
 Print Assumptions c18_width_order_independent_growth_only.
+Print Assumptions c18_glyph_patches_decode_encode.
